@@ -1146,6 +1146,22 @@ def judge_ds(chk, c, obs, outs):
                 ok = False
             if not miss:
                 vis_kps.append(tuple(kp))
+        # identity geometry (no size matching, scale 1, no geometric augmentation; stride padding is
+        # bottom/right): the returned keypoints must BE the labels (model-free, exact up to float32)
+        if c["cls"] != "Centered" and not geo and s == 1 and not sm_facts(fr["h"], fr["w"], mhw[0], mhw[1])[0]:
+            if c["cls"] == "Centroid":
+                a_ = c.get("anchor")
+                lab = [i_[a_] if a_ is not None and i_[a_][0] is not None else bbox_mid(i_) for i_ in fr["insts"]]
+            else:
+                lab = [p_ for i_ in fr["insts"] for p_ in i_]
+            lab = [p_ for p_ in lab if p_[0] is not None and p_[1] is not None]
+            for j_, (p_, q_) in enumerate(zip(lab, vis_kps)):
+                d_ = max(abs(p_[0] - q_[0]), abs(p_[1] - q_[1]))
+                if d_ > 0.01:
+                    chk.fail(f"C04 {c['cls']}Dataset: no geometric step at all (frame {fr['h']}x{fr['w']}, scale 1, np_chunks={bool(c.get('np_chunks'))}) "
+                             f"but keypoint {list(p_)} came back as {list(q_)} ({d_:.2f} px away; the image is unchanged)",
+                             {**sub, "point": j_}, {"label": list(p_), "returned": list(q_)})
+                    ok = False
         # pad location: bottom/right strips all-zero (no augmentation ⇒ nothing else writes there)
         if not geo and not noisy and not size_knife:
             ph, pw = mc["sizes"][-2] if c["cls"] == "Centered" else mc["sizes"][it["n_pre"] - 2]
@@ -1355,6 +1371,29 @@ def gen_aug(rng, mode):
     params = dict(rng.choice(INT_PARAMS)) if mode == "int" else gen_geo_params(rng)
     return {"kind": "aug", "mode": mode, "h": h, "w": w, "pts": pts, "sigma": sigma, "c": rng.choice([1, 1, 3]),
             "params": params, "seed": rng.randrange(2 ** 31), "nan_last": len(pts) > 1 and rng.random() < 0.2}
+
+
+WIDE = [(24, 2600), (24, 4200), (4300, 24), (32, 2700)]
+
+
+def gen_ds_wide(rng, cls, np_chunks):
+    """Frames with one long side (> 2048 px, beyond 4096 px) and keypoints at odd-integer / non-dyadic
+    positions far out — where a storage format with fewer mantissa bits than float32 (np_chunks) would
+    move keypoints by ≥ 1 px while the image stays put.  uint8, one thin frame: cheap."""
+    h, w = rng.choice(WIDE)
+    long_ = max(h, w)
+    far = [v for v in (2563.0, 2051.3, 2565.0, 2307.0, 4101.25, 4102.0, 4099.0) if v < long_ - 12]
+    a, b = rng.sample(far, 2)
+    sh = min(h, w)
+    ya, yb = sh / 2 - 0.5, sh / 2 + 0.25
+    inst = [(a, ya), (b, yb)] if w > h else [(ya, a), (yb, b)]
+    c = {"kind": "ds", "cls": cls, "frames": [{"h": h, "w": w, "c": 1, "sigma": 1.6, "insts": [inst]}],
+         "max_hw": [None, None], "scale": [1, 1], "stride": rng.choice([1, 2, 8]), "rgb": False, "anchor": rng.choice([0, 1]),
+         "seed": rng.randrange(2 ** 31), "decimal": False, "region": "wide", "np_chunks": np_chunks,
+         "existing": np_chunks and rng.random() < 0.3, "all_instances": False, "reads": rng.choice([[0], [0, 0]])}
+    if cls == "Centered":
+        c["crop_hw"] = [16, 16]
+    return c
 
 
 def gen_ds(rng, cls, region="main"):
@@ -1621,6 +1660,10 @@ def main(chk: Check):
     add(gen_aug, chk.n(80, 600), "geo")
     for cls in ("BottomUp", "Single", "Centroid", "Centered"):
         add(gen_ds, chk.n(60, 500), cls, "main")
+    # wide / tall frames (coordinates beyond 2048 and 4096 px), np_chunks and in-memory
+    for cls, npz in [("BottomUp", True), ("Single", True), ("Centroid", True), ("Centered", True),
+                     (rng.choice(["BottomUp", "Single", "Centroid"]), False)]:     # in-memory cache for contrast
+        add(gen_ds_wide, chk.n(1, 4), cls, npz)
     n_main = len(cases)
     # ---- regions the partial theorems exclude (search, not proof coverage)
     add(gen_sm, chk.n(15, 150), "ge3")
